@@ -159,6 +159,7 @@ CHECKS["C12"] = {
                   "so the search is needed for reaching the code paths and for the result oracle. Trusted: the interposition layer and detector (sim/simrt.cpp)",
     "technique": "deterministic simulation of caller threads (real threads, one runs at a time, seeded scheduler with pre-emption at instrumented memory accesses) with a happens-before race detector and a run-alone reference for every call",
     "determinism_runs": 1500, "exec_timeout": 120, "batch_timeout": 600, "minimise_s": 60,
+    "fresh_process_every": 4,   # a new engine process every 4 batches: process-wide lazily initialised state meets the callers cold again
 }
 
 CHECKS["C13"] = {
